@@ -6,7 +6,8 @@
    These theorems are about the code WITH the fixes of defects D1 (startPortScanEngine runs one engine for an
    empty port list), D2 (stdin address list is recorded and replayed for every port) and D3 (ParseIPNet
    accepts IPv4 only). *)
-From Coq Require Import ZArith List Bool Permutation.
+From Coq Require Import ZArith List Bool Permutation Lia.
+From Coq Require Strings.String.
 From SX Require Import Base.Bytes Model.RangeIter Model.IPNet Model.Exclude Model.Targets Model.FileTargets
   Model.TargetWiring Gen.GroupsTable Gen.TargetWiring
   Proofs.RangeIterProofs Proofs.IPNetProofs Proofs.StagesProofs Proofs.TargetsProofs Proofs.FileTargetsProofs
@@ -45,6 +46,14 @@ Theorem C01_all_commands : forall cmd, In cmd commands -> forall k f inp n,
 Proof.
   intros cmd _ k f inp n Hc V.
   exact (command_coverage cyclic_groups groups_ok chunk_size (proj1 C01_chunk_loop) cmd k f inp n Hc V).
+Qed.
+
+(* the hypothesis "accepted by ParseIPNet" of [valid_spec], discharged: whatever ParseIPNet accepts (under
+   the library shape assumptions of C02) is an IPv4 net in the sense the coverage theorems need *)
+Theorem C01_target_accepted : forall cidr addr n,
+  lib_cidr_ok cidr = true -> lib_addr_ok addr = true -> parse_ipnet cidr addr = POk n -> exists pl, ipv4_net n pl.
+Proof.
+  intros cidr addr n Hc Ha H. apply is_ipv4_net_sound. exact (parse_ipnet_ipv4 cidr addr n Hc Ha H).
 Qed.
 
 (* ---------- the same, stated directly on the generator chains ---------- *)
@@ -170,9 +179,42 @@ Example C01_ex_classes : map class_of commands =
    Some KPortPacket; Some KPortPacket; Some KPortPacket; Some KPortPacket].
 Proof. vm_compute. reflexivity. Qed.
 
+(* the hypotheses of C01_all_commands are satisfiable: a concrete valid specification for `sx tcp syn`
+   (10.0.0.8/31, ports 80-81, exclusion list and ARP stage on, gateway MAC known) and what the command does with it *)
+Definition ex_inp : inputs :=
+  {| i_dst := Some ([10;0;0;8], [255;255;255;254]); i_file := []; i_openable := false;
+     i_nets := [([10;0;0;9], [255;255;255;255])]; i_cache := {| ac_entries := []; ac_gateway := [2;0;0;0;0;1] |};
+     i_ports := [(80, 81)]; i_dp := fun _ _ => (5, 7); i_di := fun _ _ => (3, 9) |}.
+Definition ex_cfg : cfg :=
+  {| f_file := false; f_ports := true; f_exclude := true; f_cache := true; f_live := false; f_stdin := false |}.
+Definition ex_cmd : command := nth 8 commands {| c_name := Strings.String.EmptyString; c_gen := GPorts; c_engine := EGeneric |}.
+Example C01_ex_valid_spec : class_of ex_cmd = Some KPortPacket /\
+  valid_spec KPortPacket ex_cfg ex_inp ([10;0;0;8], [255;255;255;254]).
+Proof.
+  split; [vm_compute; reflexivity|].
+  constructor.
+  - reflexivity.
+  - intros H; discriminate.
+  - intros H; discriminate.
+  - intros _. split; [reflexivity|]. exists 31. unfold ipv4_net. cbn. repeat split; try reflexivity; lia.
+  - split; [intros _; discriminate|intros _; reflexivity].
+  - constructor; [unfold valid_range; cbn; lia|constructor].
+  - intros _ _; reflexivity.
+  - intros _ H; discriminate.
+  - intros [H _]; discriminate.
+  - intros _; discriminate.
+  - intros c i. cbn. lia.
+  - intros c i. cbn. lia.
+Qed.
+Example C01_ex_command :
+  option_map probes (run_command cyclic_groups chunk_size empty_runs_once ex_cmd ex_cfg ex_inp)
+  = Some [([10;0;0;8], 81); ([10;0;0;8], 80)].
+Proof. vm_compute. reflexivity. Qed.
+
 Print Assumptions C01_wiring.
 Print Assumptions C01_chunk_loop.
 Print Assumptions C01_all_commands.
+Print Assumptions C01_target_accepted.
 Print Assumptions C01_subnet_ports.
 Print Assumptions C01_subnet_ports_generic.
 Print Assumptions C01_file_pairs.
